@@ -894,6 +894,8 @@ class HInterp:
                 raise HUndecided("cast `%s`" % unparse(e))
             if d == "len" and len(e.args) == 1 and isinstance(self.ev(e.args[0], p), BytesV) and self.ev(e.args[0], p).kind == "key":
                 return leaf("len", 63)
+            if d == "len" and len(e.args) == 1 and isinstance(self.ev(e.args[0], p), BlocksV):
+                return self.binop(ast.FloorDiv(), leaf("len", 63), C(self.B))      # the array of whole blocks has len // B elements
             if d in ("np.frombuffer", "numpy.frombuffer") and len(e.args) == 2:
                 src = self.ev(e.args[0], p)
                 dt = cast_target(e.args[1])
@@ -911,6 +913,9 @@ class HInterp:
                     return ("leaf", "fasthash64(key, %s)" % show(nf(seed[0])) if seed else "fasthash64(key)", 64)
                 return self.call_helper(callee, args)
             raise HUndecided("call `%s`" % unparse(e, 50))
+        if isinstance(e, ast.Subscript) and isinstance(e.value, ast.Attribute) and e.value.attr == "shape" \
+                and isinstance(e.slice, ast.Constant) and e.slice.value == 0 and isinstance(self.ev(e.value.value, p), BlocksV):
+            return self.binop(ast.FloorDiv(), leaf("len", 63), C(self.B))
         if isinstance(e, ast.Subscript):
             base = self.ev(e.value, p)
             if isinstance(base, BytesV):
@@ -954,6 +959,8 @@ class HInterp:
                 if i == ("idx",):
                     return ("elem", base.w)
                 raise HUndecided("block access `%s`" % unparse(e))
+        if isinstance(e, ast.Attribute) and e.attr == "size" and isinstance(self.ev(e.value, p), BlocksV):
+            return self.binop(ast.FloorDiv(), leaf("len", 63), C(self.B))
         raise HUndecided("expression `%s`" % unparse(e, 50))
 
     def binop(self, o, a, b):
